@@ -177,7 +177,8 @@ def task(tier, seed=0):
                 continue
             if k == 3 and feats[0] != 0:
                 continue
-            for names in (None, ["alpha", "beta", "gamma"]):
+            # user names are arbitrary strings: characters special to str.format / %-formatting / regular expressions included
+            for names in (None, ["alpha", "beta", "gamma"], ["$x_{1}$", "100%s {0}", "r.*(x)\\d"]):
                 obs.extend(o for o in run_sx(PrintFaithful(seq, feats, d, names), seed=seed) if "paths-explored" not in o.name)
     return obs
 
@@ -259,4 +260,61 @@ def rejection_table():
         e = runs(foreign, None)
         obs.append(Ob(f"print_kauri_tree[{type(foreign).__name__}] is refused (ValueError / TypeError family)",
                       PROVED if isinstance(e, (ValueError, TypeError)) else REFUTED, "enumeration", "P", {"exception": repr(e), "replayed": True}, fn=fn))
+    return obs
+
+
+def native_end_to_end(seed=0):
+    """B: real fits, printed and read back, against the MODEL's own predict (not only Tree.predict): the printed feature of
+    every rule must be a column of the data the user passes to predict.  Data sets include constant columns in front of /
+    between the informative ones, duplicated columns and integer-valued tables; names include characters that are special to
+    str.format, %-formatting and regular expressions."""
+    import warnings
+    fn = "gemclus.tree.kauri.print_kauri_tree"
+    rs = np.random.RandomState(1000 + seed)
+    obs = []
+
+    def blobs(n, d, k):
+        c = rs.normal(scale=4.0, size=(k, d))
+        return np.vstack([c[i] + rs.normal(size=(n // k, d)) for i in range(k)])
+
+    base = blobs(60, 3, 3)
+    cases = {
+        "plain blobs": base,
+        "constant first column": np.hstack([np.ones((60, 1)), base]),
+        "all-zero column in the middle": np.hstack([base[:, :1], np.zeros((60, 1)), base[:, 1:]]),
+        "two constant columns then data": np.hstack([np.full((60, 1), 7.0), np.zeros((60, 1)), base[:, :2]]),
+        "duplicated column": np.hstack([base[:, :1], base[:, :1], base[:, 1:]]),
+        "integer-valued table": np.round(base).astype(float),
+    }
+    awkward = ["$x_{1}$", "{a, b}", "100%s", "r.*(x)", "{0}", "name with spaces", "x\\d", "{{k}}"]
+    for tag, X in cases.items():
+        d = X.shape[1]
+        for names in (None, [awkward[(j + len(tag)) % len(awkward)] + str(j) for j in range(d)]):
+            bad = None
+            try:
+                with warnings.catch_warnings():
+                    warnings.simplefilter("ignore")
+                    m = KA.Kauri(max_clusters=3, max_depth=4, kernel="linear", random_state=seed).fit(X)
+                buf = io.StringIO()
+                with contextlib.redirect_stdout(buf):
+                    KA.print_kauri_tree(m, names)
+                pt = PrintedTree(buf.getvalue())
+                shown = names if names is not None else [f"X[:, {j}]" for j in range(d)]
+                n2f = {nm: j for j, nm in enumerate(shown)}
+                Q_ = np.vstack([X, X[rs.permutation(len(X))[:40]] + rs.normal(scale=2.0, size=(40, d))])
+                want = m.predict(Q_)
+                for x, w in zip(Q_, want):
+                    node = pt.root
+                    while node[0] == "rule":
+                        if node[1] not in n2f:
+                            raise ValueError(f"printed feature {node[1]!r} is not one of the names / columns")
+                        node = node[3] if x[n2f[node[1]]] <= float(node[2]) else node[4]
+                    if node[1] != int(w):
+                        bad = {"x": x.tolist(), "read back": node[1], "predict": int(w), "text": buf.getvalue()[:400]}
+                        break
+            except Exception as e:
+                bad = {"exception": repr(e)[:300]}
+            obs.append(Ob(f"print_kauri_tree[real fit on {tag}, {'user names' if names else 'default names'}]: printed rules over the user's columns, "
+                          f"read back, give model.predict on the training rows and 40 perturbed rows",
+                          PROVED if bad is None else REFUTED, "native", "B", dict(bad or {}, replayed=bad is not None), fn=fn))
     return obs
